@@ -123,6 +123,7 @@ func c04Case(t *T) {
 			t.Fail("servehttp-panic", "%s %s %q panicked: %v", kind, method, path, pv)
 			return
 		}
+		t.Tracef("%s request %s %q: status %d, trace %s", kind, method, path, rec.Status(), strings.Join(rec.Events, " "))
 		t.Count("requests."+kind, 1)
 		if chainNonTrivial(chain) {
 			t.Count("chains.with_no_next_handler", 1)
@@ -309,6 +310,7 @@ func c12Case(t *T) {
 			t.Fail("servehttp-panic", "%s %q panicked: %v", rs.Method, path, pv)
 			continue
 		}
+		t.Tracef("%s %s: Path() %q, %d middleware; request %s %q trace %s", what, rs.Name, rs.route.Path(), len(rs.route.Handlers()), rs.Method, path, strings.Join(rec.Events, " "))
 		if !eventsEqual(want, rec.Events) {
 			failing = append(failing, rs.Name)
 			sig := "route-chain-" + classifyTrace(want, rec.Events)
